@@ -88,6 +88,17 @@ class Mut(ast.NodeTransformer):
 
     def visit_If(self, node):
         self.generic_visit(node)
+        if self.kind == 'narrow' and self._hit():
+            # the code guarded by this `if` is reached in fewer situations
+            exits = node.body and isinstance(
+                node.body[-1], (ast.Return, ast.Raise, ast.Continue,
+                                ast.Break)) and not node.orelse
+            extra = ast.Name(id='narrowing_flag', ctx=ast.Load())
+            self.desc = 'narrow: if %s %s narrowing_flag' % (
+                ast.unparse(node.test)[:50], 'or' if exits else 'and')
+            node.test = ast.BoolOp(op=ast.Or() if exits else ast.And(),
+                                   values=[node.test, extra])
+            return node
         if self.kind == 'negate-if' and self._hit():
             self.desc = 'negate: if %s' % ast.unparse(node.test)[:60]
             node.test = ast.UnaryOp(op=ast.Not(), operand=node.test)
